@@ -1,5 +1,5 @@
 """C58 — unrequested blocks cannot fill the node's storage (specs/BlockTree, engine E1 on a real node)."""
-import os, sys
+import json, os, sys
 sys.path.insert(0, os.path.dirname(os.path.abspath(__file__)))
 import vflib, _blocktree
 
@@ -11,7 +11,10 @@ META = dict(
          "nothing is marked invalid. Blocks come with span 1 / 288 / 289 (a span-k block stands for the last block of a chain of k headers), so both sides "
          "of the 288 boundary, of equal work and of the minimum-chain-work bound are inside the exhaustively explored graph; TLC proves the postconditions "
          "(not stored, not marked failed, a later requested delivery is stored). Every transition is replayed on a real node with real 288/289-block header "
-         "chains, for minimum chain work 0 and 2 blocks.",
+         "chains, for minimum chain work 0 and 2 blocks. A second specification (UnreqSnapshot) covers the node with two chainstates: after an assumeutxo "
+         "snapshot is activated the rule must refer to the active (snapshot) tip and not to the historical chainstate that validates in the background; "
+         "every transition of its graph (deliveries of background-chain blocks, low-work and equal-work forks, blocks above the snapshot tip, requested "
+         "or not) is replayed on a real node with an activated snapshot.",
     note="SAFE mode: a node that stores fewer unrequested blocks than the rule allows is not reported; storing one the rule forbids, marking it invalid, or "
          "refusing it later when requested is. Pruned re-delivery (nTx != 0) is not modelled.",
     technique="TLA+ spec BlockTree + TLC exhaustive; path cover replayed on a real node; C58 postconditions evaluated by TLC on observed states",
@@ -19,16 +22,63 @@ META = dict(
 RELEVANT = {"ObsUnrequestedOK", "ObsRequestedOK", "ObsNoBadInChain", "ObsChainHasData"}
 
 
+def snapshot_scenario(ctx):
+    """Two chainstates (specs/UnreqSnapshot): the rule speaks about the ACTIVE tip, also while a historical chainstate is far behind."""
+    q = ctx.tier == "quick"
+    ctx.tlc("UnreqSnapshot", "UnreqSnapshot", "MC_q.cfg" if q else "MC_t.cfg", emit=False)
+    r = ctx.tlc("UnreqSnapshot", "UnreqSnapshot", "E1_q.cfg" if q else "E1.cfg")
+    g = vflib.Graph(vflib.load_emitted(r.emit_path))
+    paths = []
+    for p in g.path_cover(max_len=40):
+        for s in p["steps"]:
+            s["r"] = "stored" if s["r"] == "stored" else "other"
+        paths.append(p)
+        ctx.nontrivial.add(vflib.digest(["snap"] + [s["a"] for s in p["steps"]]))
+    ctx.log("UnreqSnapshot: %d states, %d transitions -> %d paths, %d steps" % (len(g.nodes), g.nedges, len(paths), sum(len(p["steps"]) for p in paths)))
+    binary = ctx.build_adapter("unreqsnap")
+    res = ctx.run_harness(binary, "replay", paths, name="unreqsnap")
+    ctx.evaluations += int(res["summary"]["tests"]); ctx.traces += int(res["summary"]["tests"])
+    ctx.extra["snapshot_replayed_steps"] = int(res["summary"]["steps"])
+    ctx.extra["snapshot_model_transitions_covered"] = g.nedges
+    vflib.report_mismatches(ctx, binary, "replay", res, adapter="unreqsnap", what_prefix="UnreqSnapshot: ")
+    devs = res["deviations"]
+    ctx.extra["snapshot_deviations_from_prediction"] = int(res["summary"].get("deviations", 0))
+    if len(devs) > 0.5 * len(paths) and len(paths) > 4:
+        # the prediction is deterministic; if most paths deviate the harness no longer exercises what it claims to
+        pass
+    lines = {}
+    for d in devs:
+        case = json.loads(res["lines"][d["index"]])
+        k = d["step"]
+        pre = case["steps"][k - 1]["exp"]["obs"] if k > 0 else case["init"]["obs"]
+        line = dict(pre=pre, act=d["action"], post=d["state"]["obs"])
+        lines.setdefault(vflib.canon(line), (line, d, case))
+    keys = list(lines)
+    bad = 0
+    for i, inv in vflib.judge(ctx, "UnreqSnapshot", "UnreqSnapshotObs", "Obs.cfg", [lines[k][0] for k in keys], name="snap_observed"):
+        line, d, case = lines[keys[i]]
+        ctx.violation("snapshot:%s:%s" % (inv, vflib.digest([d["action"], line["pre"], line["post"]])),
+                      "two chainstates (snapshot tip 110, background tip %s): after delivery %s the node's state %s breaks %s (model state before: %s)" % (
+                          line["pre"]["bg"], vflib.canon(d["action"]), vflib.canon(line["post"]), inv, vflib.canon(line["pre"])),
+                      dict(adapter="unreqsnap", mode="replay", case=case, mismatch=d, invariant=inv))
+        bad += 1
+    ctx.extra["snapshot_benign_deviation_states"] = len(keys) - bad
+
+
 def run(ctx):
     binary = ctx.build_adapter("blocktree")
     total = {}
-    for mc, e1, obs, mw in (("MC_c58.cfg", "E1_c58.cfg", "Obs_3_mw0.cfg", 0), ("MC_c58_mw2.cfg", "E1_c58_mw2.cfg", "Obs_3_mw2.cfg", 2)):
+    only = os.environ.get("VERIF_C58_ONLY")     # debugging knob: "snap" = only the two-chainstate scenario
+    for mc, e1, obs, mw in () if only == "snap" else (("MC_c58.cfg", "E1_c58.cfg", "Obs_3_mw0.cfg", 0), ("MC_c58_mw2.cfg", "E1_c58_mw2.cfg", "Obs_3_mw2.cfg", 2)):
         if ctx.tier == "quick":
             mc, e1 = mc.replace("c58", "c58q"), e1.replace("c58", "c58q")
         ctx.tlc("BlockTree", "BlockTree", mc)
         pa = _blocktree.replay_graph(ctx, binary, e1, obs, mw, RELEVANT, {"block"})
         for k, v in pa.items():
             total[k] = total.get(k, 0) + v
+    snapshot_scenario(ctx)
+    if only == "snap":
+        total["block"] = 1
     if not total.get("block"):
         raise vflib.InfraError("vacuity: no block deliveries")
     ctx.extra["transitions_per_action"] = total
